@@ -1050,6 +1050,8 @@ def learn_op(case, r):
         cfg["box"] = {"low": [ratj(F(float(np.float32(x)))) for x in case["act"]["low"]],
                       "high": [ratj(F(float(np.float32(x)))) for x in case["act"]["high"]]}
     calls = []
+    modes = case.get("info_modes") or ["fresh"] * n
+    last_term = [None] * n   # what a reused info dict still holds under "terminal_observation"
     for ci, call in enumerate(case["calls"]):
         info = r["calls"][ci]
         snaps = r["vn_snaps"][info["vstart"]:info["vend"]] if vnc else []
@@ -1077,8 +1079,12 @@ def learn_op(case, r):
             raws = []
             for i in range(n):
                 T = per_env[i][ci]["steps"][kk]
+                stale = last_term[i] if modes[i] in ("reused", "reused_extra") else None
                 raws.append({"obs": vecj(T["next"]), "rew": ratj(F(T["rew"])), "term": T["term"], "trunc": T["trunc"],
-                             "reset_obs": vecj(T["reset_obs"]) if T["reset_obs"] is not None else []})
+                             "reset_obs": vecj(T["reset_obs"]) if T["reset_obs"] is not None else [],
+                             "stale_term": vecj(stale) if stale is not None else None})
+                if T["term"] or T["trunc"]:
+                    last_term[i] = T["next"]
             c["steps"].append({"u": uj, "noise": nzv, "raws": raws,
                                "nz": nzj(step_nz[kk]) if vnc else None})
         calls.append(c)
